@@ -557,6 +557,10 @@ fn op_json(t: usize, op: &Op) -> Value {
         Op::Recv(c, ok) => ("Recv", *c as i64, *ok as i64),
         Op::TryRecv(c, r) => ("TryRecv", *c as i64, *r as i64),
         Op::Spawn(t) => ("Spawn", *t as i64, 0),
+        Op::TryLock(m, ok) => ("TryLock", *m as i64, *ok as i64),
+        Op::ARmw(a, _old, new) => ("ARmw", *a as i64, *new as i64),
+        Op::Join(t) => ("Join", *t as i64, 0),
+        Op::Yield => ("Yield", -1, 0),
         Op::DropSender(c) => ("DropSender", *c as i64, 0),
         Op::DropReceiver(c) => ("DropReceiver", *c as i64, 0),
         Op::User(s) => {
